@@ -129,7 +129,7 @@ func genCorruptCase(t *rapid.T) corruptCase {
 	var c corruptCase
 	legacy := rapid.Bool().Draw(t, "legacy")
 	m := rapid.SampledFrom([]int64{7, 8000, 8192}).Draw(t, "M")
-	c.Cfg = gen.AsmConfig{Legacy: legacy, CoreSize: m, Length: m / 3, Distance: 1, Processes: 8}
+	c.Cfg = gen.AsmConfig{Legacy: legacy, NOP94: !legacy && rapid.Bool().Draw(t, "nop94"), CoreSize: m, Length: m / 3, Distance: 1, Processes: 8}
 	maxLen := 6
 	if int64(maxLen) > c.Cfg.Length {
 		maxLen = int(c.Cfg.Length)
